@@ -210,7 +210,8 @@ def overlap_family(tails: List[List[dict]], thin: int = 1) -> List[dict]:
     cases: List[dict] = []
     slow = {"async": True, "wait": True}
     for size in (2, 3, None):
-        for kind, extra in (("map", {"n": 5, "nc": 2}), ("apply", {"num": 3}), ("starmap", {"n": 4, "nc": 3})):
+        # (apply with num 2: after the two cancellations nothing else is running, so whoever waits waits for the callbacks alone)
+        for kind, extra in (("map", {"n": 5, "nc": 2}), ("apply", {"num": 3}), ("starmap", {"n": 4, "nc": 3}), ("apply", {"num": 2})):
             for ecb in (None, slow):
                 sp = {"op": "spawn", "pool": 0, "kind": kind, "worker": {"script": [["wait"]], "fname": "w"}, "place": "inline", "ccb": dict(slow), **extra}
                 if ecb is not None:
